@@ -12,6 +12,8 @@ package priority
 //   gDivErr      a division returned a non-zero added total different from the dividend
 //   gPset        the configured priorities (AddInput / RemoveInput requests received so far)
 //   gH           Opts.HandlersQuantity
+//   gIn[p][0..gInN[p])  items received from the input of priority p, in order; gOutNP[p] = items of p delivered
+//   gPendSet, gPendP    an item of priority gPendP was received and is not yet delivered
 //   gClosedIn    priorities whose current input channel was observed closed
 //   gStop        a stop case (Stop() or context cancellation) was taken
 //   gGraceful    the graceful-stop signal was observed
@@ -23,6 +25,11 @@ package priority
 //@ ghost var gPset set
 //@ ghost var gH int
 //@ ghost var gClosedIn set
+//@ ghost var gIn map[int]map[int]T
+//@ ghost var gInN map[int]int
+//@ ghost var gOutNP map[int]int
+//@ ghost var gPendSet bool
+//@ ghost var gPendP int
 //@ ghost var gStop bool
 //@ ghost var gGraceful bool
 //@ ghost var gCompleted bool
@@ -38,11 +45,21 @@ package priority
 //@   requires [C01 C15] capacity-never-exceeded: gInfl < dsc.opts.HandlersQuantity
 //@   requires [C15] no-delivery-after-a-divider-fault: !gDivErr
 //@   requires [C16] nothing-after-stop-returned: !gCompleted
+//@   requires [C02] delivers-the-item-just-received-under-its-priority: gPendSet && v.Priority == gPendP && v.Item == gIn[gPendP][gInN[gPendP] - 1]
+//@   requires [C02] exactly-once-in-order: gOutNP[gPendP] < gInN[gPendP] && (gStop || gOutNP[gPendP] + 1 == gInN[gPendP])
 //@   effect gInfl := gInfl + 1
 //@   effect gInflP := store(gInflP, v.Priority, gInflP[v.Priority] + 1)
+//@   effect gOutNP := store(gOutNP, v.Priority, gInN[v.Priority])
+//@   effect gPendSet := false
 
 //@ event recv dsc.inputs[$p].Channel (item, opened)
+//@   requires [C02 C17] reads-only-configured-inputs: in(gPset, p)
+//@   requires [C02] no-received-item-is-dropped: gStop || !gPendSet
 //@   effect gClosedIn := ite(opened, gClosedIn, store(gClosedIn, p, true))
+//@   effect gIn := ite(opened, store(gIn, p, store(gIn[p], gInN[p], item)), gIn)
+//@   effect gInN := ite(opened, store(gInN, p, gInN[p] + 1), gInN)
+//@   effect gPendSet := gPendSet || opened
+//@   effect gPendP := ite(opened, p, gPendP)
 
 //@ event recv dsc.interrupter.C ()
 
@@ -72,6 +89,7 @@ package priority
 // Stop() and GracefulStop() return when Complete() is called on their breaker.
 //@ event call breaker.(*Breaker).Complete (b)
 //@   requires [C07] graceful-stop-returns-only-when-drained-and-released: gStop || gDivErr || (gInfl == 0 && (forall k :: in(gPset, k) ==> in(gClosedIn, k)))
+//@   requires [C02] everything-received-was-delivered: gStop || gDivErr || (!gPendSet && (forall k :: gOutNP[k] == gInN[k]))
 //@   effect gCompleted := true
 
 // C15: the calling convention of the divider is an obligation at every call through a
@@ -244,6 +262,11 @@ package priority
 //@   loop 0
 //@     invariant [*] forall k :: in($visited, k) ==> dsc.inputs[k].Drained
 
+// C02: between two items nothing is pending and everything received was delivered.
+//@ pred SEQ2(dsc)
+//@   [C02] gStop || (!gPendSet && (forall k :: gOutNP[k] == gInN[k]))
+//@   [C02] forall k :: gOutNP[k] <= gInN[k]
+
 //@ pred DRAINED(dsc)
 //@   [C07] forall k :: (dom(dsc.inputs, k) && dsc.inputs[k].Drained) ==> in(gClosedIn, k)
 
@@ -296,12 +319,16 @@ package priority
 //@     invariant [* C16] old(gStop) ==> gStop
 
 //@ func (*Discipline).send
+//@   requires [C02] gPendSet && gPendP == priority && item == gIn[priority][gInN[priority] - 1] && gOutNP[priority] < gInN[priority] && (gStop || gOutNP[priority] + 1 == gInN[priority])
+//@   requires [C02] gStop || forall k :: k != priority ==> gOutNP[k] == gInN[k]
+//@   requires [C02] forall k :: gOutNP[k] <= gInN[k]
+//@   ensures [C02] SEQ2(dsc)
 //@   requires [*] WF(dsc)
 //@   requires [* C01] RINV(dsc)
 //@   requires [* C01] dsc.tactic[priority] >= 1
 //@   requires [C07 C15] !gDivErr
 //@   requires [C16] !gCompleted
-//@   modifies content(dsc.tactic), content(dsc.actual), gInfl, gInflP, gClock, gStop
+//@   modifies content(dsc.tactic), content(dsc.actual), gInfl, gInflP, gClock, gStop, gIn, gInN, gOutNP, gPendSet, gPendP
 //@   ensures [*] WF(dsc)
 //@   ensures [* C01] RINV(dsc)
 //@   ensures [* C01] (result == 0 || result == 1) && msum(dsc.actual) == old(msum(dsc.actual)) + result && msum(dsc.tactic) == old(msum(dsc.tactic)) - result
@@ -310,19 +337,22 @@ package priority
 //@   ensures [* C16] result == 0 ==> gStop
 
 //@ func (*Discipline).io
+//@   requires [C02] SEQ2(dsc)
+//@   ensures [C02] SEQ2(dsc)
 //@   requires [*] WF(dsc)
 //@   requires [*] in(gPset, priority)
 //@   requires [* C01] RINV(dsc)
 //@   requires [C07 C15] !gDivErr
 //@   requires [C16] !gCompleted
 //@   requires [C07] DRAINED(dsc)
-//@   modifies content(dsc.tactic), content(dsc.actual), content(dsc.inputs), gInfl, gInflP, gClock, gClosedIn, gStop
+//@   modifies content(dsc.tactic), content(dsc.actual), content(dsc.inputs), gInfl, gInflP, gClock, gClosedIn, gStop, gIn, gInN, gOutNP, gPendSet, gPendP
 //@   ensures [*] WF(dsc)
 //@   ensures [* C01] RINV(dsc)
 //@   ensures [* C01] result == msum(dsc.actual) - old(msum(dsc.actual))
 //@   ensures [C07] DRAINED(dsc)
 //@   ensures [* C16] old(gStop) ==> gStop
 //@   loop 0
+//@     invariant [C02] SEQ2(dsc)
 //@     invariant [*] WF(dsc)
 //@     invariant [* C01] RINV(dsc)
 //@     invariant [* C01] processed == msum(dsc.actual) - old(msum(dsc.actual))
@@ -330,19 +360,22 @@ package priority
 //@     invariant [* C16] old(gStop) ==> gStop
 
 //@ func (*Discipline).iou
+//@   requires [C02] SEQ2(dsc)
+//@   ensures [C02] SEQ2(dsc)
 //@   requires [*] WF(dsc)
 //@   requires [*] in(gPset, priority)
 //@   requires [* C01] RINV(dsc)
 //@   requires [C07 C15] !gDivErr
 //@   requires [C16] !gCompleted
 //@   requires [C07] DRAINED(dsc)
-//@   modifies content(dsc.tactic), content(dsc.actual), content(dsc.inputs), gInfl, gInflP, gClock, gClosedIn, gStop
+//@   modifies content(dsc.tactic), content(dsc.actual), content(dsc.inputs), gInfl, gInflP, gClock, gClosedIn, gStop, gIn, gInN, gOutNP, gPendSet, gPendP
 //@   ensures [*] WF(dsc)
 //@   ensures [* C01] RINV(dsc)
 //@   ensures [* C01] result == msum(dsc.actual) - old(msum(dsc.actual))
 //@   ensures [C07] DRAINED(dsc)
 //@   ensures [* C16] old(gStop) ==> gStop
 //@   loop 0
+//@     invariant [C02] SEQ2(dsc)
 //@     invariant [*] WF(dsc)
 //@     invariant [* C01] RINV(dsc)
 //@     invariant [* C01] processed == msum(dsc.actual) - old(msum(dsc.actual))
@@ -350,18 +383,21 @@ package priority
 //@     invariant [* C16] old(gStop) ==> gStop
 
 //@ func (*Discipline).prioritize
+//@   requires [C02] SEQ2(dsc)
+//@   ensures [C02] SEQ2(dsc)
 //@   requires [*] WF(dsc)
 //@   requires [* C01] RINV(dsc)
 //@   requires [C07 C15] !gDivErr
 //@   requires [C16] !gCompleted
 //@   requires [C07] DRAINED(dsc)
-//@   modifies content(dsc.tactic), content(dsc.actual), content(dsc.inputs), gInfl, gInflP, gClock, gClosedIn, gStop
+//@   modifies content(dsc.tactic), content(dsc.actual), content(dsc.inputs), gInfl, gInflP, gClock, gClosedIn, gStop, gIn, gInN, gOutNP, gPendSet, gPendP
 //@   ensures [*] WF(dsc)
 //@   ensures [* C01] RINV(dsc)
 //@   ensures [* C01] result == msum(dsc.actual) - old(msum(dsc.actual))
 //@   ensures [C07] DRAINED(dsc)
 //@   ensures [* C16] old(gStop) ==> gStop
 //@   loop 0
+//@     invariant [C02] SEQ2(dsc)
 //@     invariant [*] WF(dsc)
 //@     invariant [* C01] RINV(dsc)
 //@     invariant [* C01] processed == msum(dsc.actual) - old(msum(dsc.actual))
@@ -388,11 +424,13 @@ package priority
 //@     invariant [* C16] old(gStop) ==> gStop
 
 //@ func (*Discipline).base
+//@   requires [C02] SEQ2(dsc)
+//@   ensures [C02] SEQ2(dsc)
 //@   requires [*] WF(dsc)
 //@   requires [C07 C15] !gDivErr
 //@   requires [C16] !gCompleted
 //@   requires [C07] DRAINED(dsc)
-//@   modifies content(dsc.tactic), content(dsc.actual), content(dsc.inputs), dsc.uncrowded, anyelems(dsc.uncrowded), dsc.useful, gDivErr, gInfl, gInflP, gClock, gClosedIn, gStop
+//@   modifies content(dsc.tactic), content(dsc.actual), content(dsc.inputs), dsc.uncrowded, anyelems(dsc.uncrowded), dsc.useful, gDivErr, gInfl, gInflP, gClock, gClosedIn, gStop, gIn, gInN, gOutNP, gPendSet, gPendP
 //@   ensures [*] WF(dsc)
 //@   ensures [C07 C15] gDivErr ==> result1 == ErrDividerBad
 //@   ensures [C07 C15] result1 == nil ==> !gDivErr
@@ -491,11 +529,13 @@ package priority
 //@   ensures [C07 C15] gDivErr == old(gDivErr)
 
 //@ func (*Discipline).loop
+//@   requires [C02] SEQ2(dsc)
+//@   ensures [C02] SEQ2(dsc)
 //@   requires [*] WF(dsc)
 //@   requires [C07 C15] !gDivErr
 //@   requires [C16] !gCompleted
 //@   requires [C07] DRAINED(dsc)
-//@   modifies content(dsc.tactic), content(dsc.actual), content(dsc.inputs), dsc.priorities, anyelems(dsc.priorities), dsc.strategic, dsc.uncrowded, dsc.useful, gPerm, gInv, gDivErr, gInfl, gInflP, gClock, gClosedIn, gStop, gGraceful, gPset
+//@   modifies content(dsc.tactic), content(dsc.actual), content(dsc.inputs), dsc.priorities, anyelems(dsc.priorities), dsc.strategic, dsc.uncrowded, dsc.useful, gPerm, gInv, gDivErr, gInfl, gInflP, gClock, gClosedIn, gStop, gGraceful, gPset, gIn, gInN, gOutNP, gPendSet, gPendP
 //@   ensures [*] WF(dsc)
 //@   ensures [* C07 C15] gStop || gInfl == 0
 //@   ensures [C07 C15] gDivErr ==> result == ErrDividerBad
@@ -504,16 +544,18 @@ package priority
 //@   ensures [C07 C15] result != nil ==> gDivErr
 //@   ensures [C16] !gCompleted
 //@   loop 0
+//@     invariant [C02] SEQ2(dsc)
 //@     invariant [*] WF(dsc)
 //@     invariant [C07 C15] !gDivErr
 //@     invariant [C07] DRAINED(dsc)
 
 //@ func (*Discipline).main
+//@   requires [C02] SEQ2(dsc)
 //@   requires [*] WF(dsc)
 //@   requires [C07 C15] !gDivErr
 //@   requires [C16] !gCompleted
 //@   requires [C07] DRAINED(dsc)
-//@   modifies content(dsc.tactic), content(dsc.actual), content(dsc.inputs), dsc.priorities, anyelems(dsc.priorities), dsc.strategic, dsc.uncrowded, dsc.useful, gPerm, gInv, gDivErr, gInfl, gInflP, gClock, gClosedIn, gStop, gGraceful, gPset, gCompleted
+//@   modifies content(dsc.tactic), content(dsc.actual), content(dsc.inputs), dsc.priorities, anyelems(dsc.priorities), dsc.strategic, dsc.uncrowded, dsc.useful, gPerm, gInv, gDivErr, gInfl, gInflP, gClock, gClosedIn, gStop, gGraceful, gPset, gCompleted, gIn, gInN, gOutNP, gPendSet, gPendP
 
 //@ func Opts.isValid
 //@   ensures [*] (result == nil) <==> (opts.Divider != nil && opts.HandlersQuantity != 0 && opts.Feedback != nil && opts.Output != nil)
@@ -524,7 +566,7 @@ package priority
 
 // The ghost state of a discipline that does not exist yet is empty.
 //@ func New
-//@   requires [*] ghost-initial-state: gInfl == 0 && (forall k :: gInflP[k] == 0) && !gDivErr && !gStop && !gGraceful && !gCompleted && (forall k :: !in(gClosedIn, k)) && gPset == domset(opts.Inputs) && gH == opts.HandlersQuantity
+//@   requires [*] ghost-initial-state: !gPendSet && (forall k :: gInN[k] == 0 && gOutNP[k] == 0) && gInfl == 0 && (forall k :: gInflP[k] == 0) && !gDivErr && !gStop && !gGraceful && !gCompleted && (forall k :: !in(gClosedIn, k)) && gPset == domset(opts.Inputs) && gH == opts.HandlersQuantity
 //@   modifies gDivErr, gPerm, gInv, anyelems(uint)
 //@   ensures [*] result1 == nil ==> result0 != nil
 
